@@ -454,13 +454,13 @@ fn gen(rng: &mut Rng, n: usize) -> Vec<Case> {
         let mut specs = specs_of(&d, k);
         let allq = rng.chance(1, 2);
         let q = queries_for(rng, &ids, allq);
-        match rng.below(20) {
-            0..=6 => {
+        match rng.below(26) {
+            0..=11 => {
                 // valid, git's layout
                 let files: Vec<Vec<u8>> = specs.iter().map(write_file).collect();
                 out.push(graph_case(&files, q, Some((&d, "g"))));
             }
-            7..=9 => {
+            12..=15 => {
                 // valid, with chunks gitoxide does not know (GDA2, GDO2, BIDX, BDAT) and/or another chunk order
                 for s in specs.iter_mut() {
                     let mut nchunks = 3 + (!s.edges.is_empty()) as usize + (s.nbase > 0) as usize;
@@ -483,7 +483,7 @@ fn gen(rng: &mut Rng, n: usize) -> Vec<Case> {
                 let files: Vec<Vec<u8>> = specs.iter().map(write_file).collect();
                 out.push(graph_case(&files, q, Some((&d, "g"))));
             }
-            10 | 11 => {
+            16..=18 => {
                 // valid records with arbitrary generation numbers / times (no generation check in prop)
                 for s in specs.iter_mut() {
                     for r in s.recs.iter_mut() {
@@ -495,7 +495,7 @@ fn gen(rng: &mut Rng, n: usize) -> Vec<Case> {
                 let files: Vec<Vec<u8>> = specs.iter().map(write_file).collect();
                 out.push(graph_case(&files, q, Some((&d, "-"))));
             }
-            12 | 13 => {
+            19 | 20 => {
                 // record-level malformations: parent words, extra edge list
                 let fi = rng.below(specs.len() as u64) as usize;
                 let s = &mut specs[fi];
@@ -534,7 +534,7 @@ fn gen(rng: &mut Rng, n: usize) -> Vec<Case> {
                 let files: Vec<Vec<u8>> = specs.iter().map(write_file).collect();
                 out.push(graph_case(&files, q, None));
             }
-            14 => {
+            21 => {
                 // fan-out malformations (not monotonic, beyond the count, huge)
                 let fi = rng.below(specs.len() as u64) as usize;
                 let nrec = specs[fi].recs.len() as u32;
@@ -551,7 +551,7 @@ fn gen(rng: &mut Rng, n: usize) -> Vec<Case> {
                 let files: Vec<Vec<u8>> = specs.iter().map(write_file).collect();
                 out.push(graph_case(&files, q, None));
             }
-            15 => {
+            22 => {
                 // the same commit in two files / unsorted ids: first file wins, bisection may miss
                 let mut specs = specs;
                 if specs.len() > 1 && rng.chance(1, 2) {
